@@ -17,6 +17,7 @@ SCRIPTS = [
     dict(system="decay", dt=0.25, ts=[1.0], policy="no_sampling"),
     dict(system="rev", dt=0.2, ts=[0.1, 0.5, 1.1], tmax=1.7, policy="on_t_sample"),
     dict(system="big", dt=0.25, ts=[0, 0.5, 1.0], policy="on_t_sample"),
+    dict(system="decay", dt=125.0, ts=[0, 300.0, 900.0], policy="on_t_sample", units={"quantity": "µmol", "time": "ms"}),
 ]
 # gillespie: event-scale horizons so that runs stay within the reference window
 SCRIPTS_G = [
@@ -26,6 +27,7 @@ SCRIPTS_G = [
     dict(system="decay", dt=0.25, ts=[0.1], policy="no_sampling"),
     dict(system="rev", dt=0.2, ts=[0.01, 0.03, 0.05], tmax=0.06, policy="on_t_sample"),
     dict(system="big", dt=0.25, ts=[0, 0.5, 1.0], policy="on_t_sample"),
+    dict(system="decay", dt=125.0, ts=[0, 10.0, 50.0], policy="on_t_sample", units={"quantity": "µmol", "time": "ms"}),
 ]
 
 
@@ -61,7 +63,7 @@ def schedule(rng, two_prev):
     nprev = rng.choice([0, 0, 1, 2])
     for _ in range(nprev):
         obj = rng.choice(["e1", "e2"]) if two_prev else "e1"
-        calls.append(["setup", obj, rng.choice(["P0", "P1"])])
+        calls.append(["setup", obj, rng.choice(["P0", "P1", "X"])])      # possibly the very script under test, same object
         for _ in range(rng.randint(0, 6)):
             calls.append(rng.choice([["iterate", obj], ["iterate_n", obj, 3], ["sample", obj], ["get_output", obj]]))
         if rng.random() < 0.6:
